@@ -21,7 +21,12 @@ def main():
     meta = json.load(open(f"{d}/meta.json"))
     props = sys.argv[2:] or ([meta["property"]] if isinstance(meta["property"], str) else meta["property"])
     before = tree_hash()
-    rc, out = sh(f"git -C /repo apply --whitespace=nowarn {d}/patch.diff")
+    flags = "--whitespace=nowarn"
+    rc, out = sh(f"git -C /repo apply {flags} {d}/patch.diff")
+    if rc != 0:
+        # hook lines committed after the seeding worktree was taken may shift the context
+        flags = "--whitespace=nowarn -C1 --recount"
+        rc, out = sh(f"git -C /repo apply {flags} {d}/patch.diff")
     if rc != 0:
         print("patch does not apply:", out); return 2
     results = {}
@@ -33,7 +38,7 @@ def main():
             results[p] = {"exit": rc, "lines": lines, "wall_s": round(time.time() - t, 1)}
             print(p, rc, lines)
     finally:
-        rc2, out2 = sh(f"git -C /repo apply -R --whitespace=nowarn {d}/patch.diff")
+        rc2, out2 = sh(f"git -C /repo apply -R {flags} {d}/patch.diff")
         after = tree_hash()
         if rc2 != 0 or after != before:
             print("WARNING: /repo not restored exactly!", out2)
